@@ -345,9 +345,15 @@ func convertFFIParamsToABIParameters(ctx context.Context, params fftypes.FFIPara
 		}
 
 		var s *Schema
-		// Errors here are unchecked because they cannot be hit if the above JSON Schema validation passed
-		_ = json.Unmarshal(param.Schema.Bytes(), &s)
-		abiParameter, _ := processField(ctx, param.Name, s)
+		// The JSON Schema validation above only covers the top level of the schema (not "items", or the
+		// types of fields we read such as "index"), so errors are possible here with a schema that compiles
+		if err := json.Unmarshal(param.Schema.Bytes(), &s); err != nil {
+			return nil, i18n.WrapError(ctx, err, signermsgs.MsgInvalidFFIDetailsSchema, param.Name)
+		}
+		abiParameter, err := processField(ctx, param.Name, s)
+		if err != nil {
+			return nil, err
+		}
 
 		tc, err := abiParameter.TypeComponentTreeCtx(ctx)
 		if err != nil {
@@ -413,13 +419,18 @@ func buildABIParameterArrayForObject(ctx context.Context, properties map[string]
 		if err != nil {
 			return nil, err
 		}
-		parameters[*propertySchema.Details.Index] = parameter
+		// Each property must have a unique position in the tuple
+		index := propertySchema.Details.Index
+		if index == nil || *index < 0 || *index >= len(parameters) || parameters[*index] != nil {
+			return nil, i18n.NewError(ctx, signermsgs.MsgInvalidFFIDetailsSchema, propertyName)
+		}
+		parameters[*index] = parameter
 	}
 	return parameters, nil
 }
 
 func processField(ctx context.Context, name string, schema *Schema) (parameter *abi.Parameter, err error) {
-	if schema.Details == nil {
+	if schema == nil || schema.Details == nil {
 		return nil, i18n.NewError(ctx, signermsgs.MsgInvalidFFIDetailsSchema, name)
 	}
 	parameter = &abi.Parameter{
